@@ -70,6 +70,8 @@ impl super::DebugSession {
             .then_ignore(end())
             .parse(trimmed)
             .into_result()
+            // a bare identifier also parses as an enum variant literal, but here it names a variable
+            && !matches!(literal, Literal::EnumVariant(_, None))
         {
             return Ok(Self::literal_truthy(&literal));
         }
